@@ -579,6 +579,7 @@ type backPressure struct {
 	done  chan struct{}
 	srv   net.Conn
 	stall time.Duration
+	slow  bool // tcpo: the peer reads slowly (the face is closed while its send queue is still full)
 }
 
 func startBackPressure(smtu, stallMs int) *run {
@@ -618,6 +619,57 @@ func startBackPressure(smtu, stallMs int) *run {
 	return r
 }
 
+// startCloseAfterSend (`new tcpo <smtu> 0`): the REAL outgoing UnicastTCPTransport (it dials the harness)
+// sends the blocks; the peer reads slowly through a small receive window, so that most of the data still
+// sits in the transport's socket send queue when the face is closed right after the last sendFrame.  A
+// closed face must not take back what it has already sent.
+func startCloseAfterSend(smtu int) *run {
+	r := &run{kind: "tcpo", done: make(chan string, 1), offered: -1, isSock: true}
+	ln, err := net.Listen("tcp4", "127.0.0.1:0")
+	if err != nil {
+		return nil
+	}
+	defer ln.Close()
+	up := make(chan struct{}, 1)
+	recv, snd, cls, err := fwface.VerifOutgoingTCPTransportSend(uint16(ln.Addr().(*net.TCPAddr).Port), fwface.PersistencyPersistent, smtu,
+		func([]byte) {
+			select {
+			case up <- struct{}{}:
+			default:
+			}
+		})
+	if err != nil {
+		return nil
+	}
+	go recv()
+	ln.(*net.TCPListener).SetDeadline(time.Now().Add(watchdog))
+	srv, err := ln.Accept()
+	if err != nil {
+		cls()
+		return nil
+	}
+	srv.(*net.TCPConn).SetReadBuffer(4096)
+	// the transport is up once its receive loop has handed up a block
+	srv.Write([]byte{0x64, 0x00})
+	select {
+	case <-up:
+	case <-time.After(watchdog):
+		cls()
+		srv.Close()
+		return nil
+	}
+	r.send, r.closeS = snd, cls
+	bp := &backPressure{q: make(chan []byte, 1<<16), done: make(chan struct{}), srv: srv, slow: true}
+	go func() {
+		defer close(bp.done)
+		for b := range bp.q {
+			snd(b)
+		}
+	}()
+	r.bp = bp
+	return r
+}
+
 func (r *run) finishBackPressure() string {
 	bp := r.bp
 	close(bp.q)
@@ -625,8 +677,23 @@ func (r *run) finishBackPressure() string {
 	got := make(chan []byte, 1)
 	go func() {
 		bp.srv.SetReadDeadline(time.Now().Add(2 * watchdog))
-		b, _ := io.ReadAll(bp.srv)
-		got <- b
+		if !bp.slow {
+			b, _ := io.ReadAll(bp.srv)
+			got <- b
+			return
+		}
+		// a slow reader: 2 KiB per millisecond
+		var all []byte
+		buf := make([]byte, 2048)
+		for {
+			n, err := bp.srv.Read(buf)
+			all = append(all, buf[:n]...)
+			if err != nil {
+				break
+			}
+			time.Sleep(time.Millisecond)
+		}
+		got <- all
 	}()
 	select {
 	case <-bp.done:
@@ -1007,6 +1074,11 @@ func exec(op string) string {
 				return "bad-op"
 			}
 			cur = startReconnect(common.Atoi(f[2]))
+		} else if f[1] == "tcpo" {
+			if len(f) != 4 {
+				return "bad-op"
+			}
+			cur = startCloseAfterSend(common.Atoi(f[2]))
 		} else if f[1] == "tcpb" {
 			if len(f) != 4 {
 				return "bad-op"
@@ -1321,6 +1393,10 @@ func gen(g *common.Gen) {
 		if i%4 == 3 {
 			kind = "app"
 		}
+		if i%8 == 2 && (i/8)%16 == 11 {
+			genBackPressure(g, r, 0)
+			continue
+		}
 		if i%8 == 2 && (i/8)%16 == 5 {
 			// a TCP peer that stops reading for a while (> 2 s once per batch) and then resumes
 			stall := r.Range(10, 150)
@@ -1611,8 +1687,14 @@ func genSendLeg(g *common.Gen, r *common.Rand, kind string) {
 // genBackPressure: many mostly large blocks through a real TCP transport whose peer does not read
 // for <stall> ms (the queue fills after a few blocks, the rest waits in Write) and then reads all.
 func genBackPressure(g *common.Gen, r *common.Rand, stall int) {
-	g.Op("new tcpb %d %d", maxPkt, stall)
-	g.Stat("hist-tcpb")
+	if stall == 0 {
+		// the sending face is closed right after its last block while the peer still lags behind
+		g.Op("new tcpo %d 0", maxPkt)
+		g.Stat("hist-tcpo")
+	} else {
+		g.Op("new tcpb %d %d", maxPkt, stall)
+		g.Stat("hist-tcpb")
+	}
 	g.Stat("style-send-leg")
 	if stall >= 2000 {
 		g.Stat("tcpb-stall-over-2s")
